@@ -55,6 +55,13 @@ class GenericGroupRegistry(
         super()._init_dynamic_classes()
         self.Group = create_class_with_registry(self, objects.Group)
 
+    def __deepcopy__(self, memo):
+        new = super().__deepcopy__(memo)
+        # The copied groups belong to the copy, not to the source registry.
+        for grp in new._groups.values():
+            grp.__class__ = new.Group
+        return new
+
     def _after_init(self) -> None:
         """Invoked at the end of ``__init__``.
 
